@@ -31,7 +31,10 @@ REFILL_FIXED = """        let bytes = loop {
 
 TLS_RNG = """    RNG.with(|cell| {
         let mut rng = cell.get();
-        let priority = rng.next_raw() as Priority;
+        // the high half of the LCG state: the low bits of an LCG are its weakest (sub-sampled at
+        // stride 2^k the low k+2 bits barely move; with the low half as priority, 2^15 treaps
+        // filled in lock-step each degenerated into a near chain)
+        let priority = (rng.next_raw() >> 32) as Priority;
         cell.set(rng);
         priority
     })
@@ -40,7 +43,7 @@ TLS_RNG = """    RNG.with(|cell| {
 TLS_DECL = """thread_local! {
     // one generator per thread: `TreapNode::new` is a safe function and nodes are `Send`,
     // so a process-wide `static mut` was a data race as soon as two threads created nodes
-    static RNG: Cell<Rng> = Cell::new(Rng::from_seed(42));
+    static RNG: Cell<Rng> = Cell::new(Rng::from_seed(thread_seed()));
 }
 """
 
@@ -83,18 +86,20 @@ MUTANTS = [
     ("C03 harmless: tie-break <= in merge", "C03", False, [(TN, "left.as_ref().unwrap().priority < right.as_ref().unwrap().priority", "left.as_ref().unwrap().priority <= right.as_ref().unwrap().priority")]),
     ("C03 harmless: max-heap instead of min-heap", "C03", False, [(TN, "left.as_ref().unwrap().priority < right.as_ref().unwrap().priority", "left.as_ref().unwrap().priority > right.as_ref().unwrap().priority")]),
     # ---- C16
-    ("C16 constant priority", "C16", True, [(TN, "let priority = rng.next_raw() as Priority;", "let priority = { rng.next_raw(); 7 as Priority };")]),
+    ("C16 constant priority", "C16", True, [(TN, "let priority = (rng.next_raw() >> 32) as Priority;", "let priority = { rng.next_raw(); 7 as Priority };")]),
     ("C16 counter priority", "C16", True, [(TN, TLS_RNG, "    static COUNTER: std::sync::atomic::AtomicU32 = std::sync::atomic::AtomicU32::new(0);\n    let _ = &RNG;\n    COUNTER.fetch_add(1, std::sync::atomic::Ordering::Relaxed)\n")]),
-    ("C16 priority truncated to 4 bits", "C16", True, [(TN, "let priority = rng.next_raw() as Priority;", "let priority = (rng.next_raw() & 15) as Priority;")]),
+    ("C16 priority truncated to 4 bits", "C16", True, [(TN, "let priority = (rng.next_raw() >> 32) as Priority;", "let priority = (rng.next_raw() >> 60) as Priority;")]),
     ("C16 merge ignores priorities", "C16", True, [(TN, "left.as_ref().unwrap().priority < right.as_ref().unwrap().priority", "left.as_ref().unwrap().priority < u32::MAX")]),
     ("C16 generator never advances", "C16", True, [(TN, "        cell.set(rng);\n", "")]),
-    ("C16 harmless: priority from the high 32 bits", "C16", False, [(TN, "let priority = rng.next_raw() as Priority;", "let priority = (rng.next_raw() >> 32) as Priority;")]),
+    ("C16 revert fix: every thread seeded with 42", "C16", True, [(TN, "Cell::new(Rng::from_seed(thread_seed()))", "Cell::new(Rng::from_seed(42))")]),
+    ("C16 revert fix: priority from the low 32 bits", "C16", True, [(TN, "let priority = (rng.next_raw() >> 32) as Priority;", "let priority = rng.next_raw() as Priority;")]),
+    ("C16 harmless: priority from bits 16..48", "C16", False, [(TN, "let priority = (rng.next_raw() >> 32) as Priority;", "let priority = (rng.next_raw() >> 16) as Priority;")]),
     ("C16 harmless: max-heap instead of min-heap", "C16", False, [(TN, "left.as_ref().unwrap().priority < right.as_ref().unwrap().priority", "left.as_ref().unwrap().priority > right.as_ref().unwrap().priority")]),
     # ---- C17
-    ("C17 revert fix: unsynchronised static mut generator", "C17", True, [(TN, TLS_DECL, "static mut RNG: Rng = Rng::from_seed(42);\n"), (TN, TLS_RNG, "    #[allow(static_mut_refs)]\n    unsafe {\n        RNG.next_raw() as Priority\n    }\n"), (TN, "use std::cell::Cell;\n\n", "")]),
-    ("C17 global atomic state with separate load and store", "C17", True, [(TN, TLS_DECL, "static STATE: std::sync::atomic::AtomicU64 = std::sync::atomic::AtomicU64::new(42);\n"), (TN, TLS_RNG, "    let mut rng = Rng::from_seed(STATE.load(std::sync::atomic::Ordering::Relaxed));\n    let p = rng.next_raw();\n    STATE.store(p, std::sync::atomic::Ordering::Relaxed);\n    p as Priority\n"), (TN, "use std::cell::Cell;\n\n", "")]),
-    ("C17 harmless: one global generator behind a Mutex", "C17", False, [(TN, TLS_DECL, "static RNG: std::sync::Mutex<Rng> = std::sync::Mutex::new(Rng::from_seed(42));\n"), (TN, TLS_RNG, "    RNG.lock().unwrap().next_raw() as Priority\n"), (TN, "use std::cell::Cell;\n\n", "")]),
-    ("C17 harmless: global atomic state advanced with fetch_update", "C17", False, [(TN, TLS_DECL, "static STATE: std::sync::atomic::AtomicU64 = std::sync::atomic::AtomicU64::new(42);\n"), (TN, TLS_RNG, "    use std::sync::atomic::Ordering::Relaxed;\n    let prev = STATE.fetch_update(Relaxed, Relaxed, |s| Some(Rng::from_seed(s).next_raw())).unwrap();\n    Rng::from_seed(prev).next_raw() as Priority\n"), (TN, "use std::cell::Cell;\n\n", "")]),
+    ("C17 revert fix: unsynchronised static mut generator", "C17", True, [(TN, TLS_DECL, "static mut RNG: Rng = Rng::from_seed(42);\n"), (TN, TLS_RNG, "    #[allow(static_mut_refs)]\n    unsafe {\n        RNG.next_raw() as Priority\n    }\n")]),
+    ("C17 global atomic state with separate load and store", "C17", True, [(TN, TLS_DECL, "static STATE: std::sync::atomic::AtomicU64 = std::sync::atomic::AtomicU64::new(42);\n"), (TN, TLS_RNG, "    let mut rng = Rng::from_seed(STATE.load(std::sync::atomic::Ordering::Relaxed));\n    let p = rng.next_raw();\n    STATE.store(p, std::sync::atomic::Ordering::Relaxed);\n    p as Priority\n")]),
+    ("C17 harmless: one global generator behind a Mutex", "C17", False, [(TN, TLS_DECL, "static RNG: std::sync::Mutex<Rng> = std::sync::Mutex::new(Rng::from_seed(42));\n"), (TN, TLS_RNG, "    RNG.lock().unwrap().next_raw() as Priority\n")]),
+    ("C17 harmless: global atomic state advanced with fetch_update", "C17", False, [(TN, TLS_DECL, "static STATE: std::sync::atomic::AtomicU64 = std::sync::atomic::AtomicU64::new(42);\n"), (TN, TLS_RNG, "    use std::sync::atomic::Ordering::Relaxed;\n    let prev = STATE.fetch_update(Relaxed, Relaxed, |s| Some(Rng::from_seed(s).next_raw())).unwrap();\n    Rng::from_seed(prev).next_raw() as Priority\n")]),
 ]
 
 
@@ -143,15 +148,24 @@ def sensitivity(args):
             meta_p, patch = os.path.join(d, "meta.json"), os.path.join(d, "patch.diff")
             if os.path.exists(meta_p) and os.path.exists(patch):
                 meta = json.load(open(meta_p))
-                items.append(("seeded/" + os.path.basename(d), meta["property"], True, None, patch))
+                # a few kept changes are out of the quick tier's reach by design (documented in
+                # their meta.json: caught by the thorough tier only)
+                items.append(("seeded/" + os.path.basename(d), meta["property"], meta.get("quick_expected", "caught") == "caught", None, patch))
         # independently written behaviour-preserving refactors: every listed check must stay quiet
         for d in sorted(glob.glob(os.path.join(VERIF, "harmless", "*"))):
             meta_p = os.path.join(d, "meta.json")
             if os.path.exists(meta_p):
                 meta = json.load(open(meta_p))
-                for patch_name in meta.get("patches", ["patch.diff"]):
-                    for prop in meta["properties"]:
-                        items.append(("harmless/%s/%s" % (os.path.basename(d), patch_name), prop, False, None, os.path.join(d, patch_name)))
+                for entry in meta.get("patches", ["patch.diff"]):
+                    # an entry is a file name (every listed property must stay quiet) or an object
+                    # {"file", "quiet": [...], "caught": [...]} for a rewrite that keeps some
+                    # properties and is known to break another
+                    if isinstance(entry, str):
+                        entry = {"file": entry, "quiet": meta["properties"], "caught": []}
+                    for prop in entry.get("quiet", []):
+                        items.append(("harmless/%s/%s" % (os.path.basename(d), entry["file"]), prop, False, None, os.path.join(d, entry["file"])))
+                    for prop in entry.get("caught", []):
+                        items.append(("harmless/%s/%s" % (os.path.basename(d), entry["file"]), prop, True, None, os.path.join(d, entry["file"])))
         for name, prop, must, edits, patch in items:
             if only and only not in name and only != prop:
                 continue
